@@ -277,7 +277,7 @@ PROPS['C11'] = dict(lean=['Mkdb.Props.C11'], facts=STORE_FACTS, runs=[dict(cmd='
     assumptions=['keys arrive in ascending order per tree (engine: shared counter; replay: logged ids)'],
     trusted_base=['models Mkdb/Model/Tree.lean, Store.lean; Spec/TreeInv.lean (invariant), Spec/Shape.lean (executable checker on dumps)'])
 PROPS['C14'] = dict(lean=['Mkdb.Props.C14'], facts=STORE_FACTS, runs=[dict(cmd='db', proto='db', args=['c14'])],
-    sig_filter=r'db:(failed-statement-changed-table|failed-statement-applied-row-prefix|failed-create-left-table|invalid-statement-accepted)', 
+    sig_filter=r'db:(failed-statement-changed-table|failed-statement-applied-row-prefix|failed-create-left-table|invalid-statement-accepted|cache-full-statement-.*)', 
     claim='Proof (partial): about the heap model of storage/relation.go + engine/*.go, with "changes nothing" = SameData (every visible page, every dirty bit, '
           'the data file, the header on disk, the locating header fields; counters may advance, pages may be pulled into the cache) and the log untouched, hence also after '
           'a restart: C14_insert_first_row (unknown table, column-count mismatch, type mismatch, out-of-range integer, duplicate key), C14_insert_oversized_row, '
